@@ -390,6 +390,105 @@ fn judge(
     }
 }
 
+/// "... from the selected parent": the selected parent moves to another port of the same master
+/// clock (X:hi -> X:lo, lower port number wins the tie-break). Afterwards exchanges of the former
+/// parent port must not be measured and exchanges of the new parent must be, exactly.
+fn parent_port_switch(rep: &mut Report, seed: u64) {
+    use statime::observability::port::PortState;
+    let replay = json!({"parent_port_switch_seed": seed});
+    let mut rng = StdRng::seed_from_u64(seed);
+    let asym: i128 = [0i128, 1 << 40, -(1i128 << 40)][rng.gen_range(0..3)];
+    let mut b = Build::new(2);
+    b.rec_reply = ReplyMode::Counter { step: 1_000_003 };
+    b.asymmetry_units = asym;
+    b.seed = seed;
+    let Ok(built) = b.build() else { return };
+    let mut node = built.node;
+    let Some(rec) = built.rec else { return };
+    let x = clock_id(0x33).0;
+    let hi: u16 = if rng.gen_bool(0.5) { 2 } else { rng.gen_range(2..60000) };
+    let old = Src::new(x, hi);
+    let newp = Src::new(x, 1);
+    let mut body = AnnounceBody::default();
+    body.gm_identity = clock_id(0x34).0;
+    body.gm_priority1 = 50;
+    body.steps_removed = 1;
+    let mut seq_a: u16 = rng.gen();
+    let mut announce = |node: &mut Node, src: &Src, seq_a: &mut u16| -> bool {
+        let mut m = src.announce(*seq_a, body.clone());
+        m.hdr.flags = [0, 0b0000_1000];
+        *seq_a = seq_a.wrapping_add(1);
+        node.call(0, Call::GeneralRx(m.encode())).is_ok()
+    };
+    for _ in 0..2 {
+        if !announce(&mut node, &old, &mut seq_a) {
+            return;
+        }
+    }
+    if node.bmca().is_err() || node.port_state(0) != PortState::Slave {
+        return;
+    }
+    let base = 1_700_000_000 * SEC;
+    let mut now = base;
+    let mut seq_s: u16 = rng.gen();
+    // one Sync from `src`; returns the measurements it produced and the exact expectation
+    let mut sync = |node: &mut Node, src: &Src, now: &mut u128, seq_s: &mut u16, two_step: bool, rng: &mut StdRng| -> Option<(Vec<Measurement>, i128)> {
+        *now += rng.gen_range(1..(1u128 << 36));
+        let t2 = *now;
+        let t1 = t2 - (rng.gen_range(1000..900_000u128) << 32) - rng.gen_range(0..(1u128 << 32));
+        let t1s = units_to_ts(t1);
+        let before = rec.lock().unwrap().events.len();
+        let seq = *seq_s;
+        *seq_s = seq_s.wrapping_add(1);
+        if two_step {
+            node.call(0, Call::EventRx(src.sync(seq, true, Ts::default(), 0).encode(), time_from_units(t2))).ok()?;
+            node.call(0, Call::GeneralRx(src.follow_up(seq, t1s, 0).encode())).ok()?;
+        } else {
+            node.call(0, Call::EventRx(src.sync(seq, false, t1s, 0).encode(), time_from_units(t2))).ok()?;
+        }
+        let g = rec.lock().unwrap();
+        let ms: Vec<Measurement> = g.events[before..].iter().filter_map(|e| if let RecEvent::Measurement { m, .. } = e { Some(*m) } else { None }).collect();
+        Some((ms, t2 as i128 - t1s.to_units() as i128 - asym))
+    };
+    // sanity: the first parent is measured exactly
+    let ts1 = rng.gen_bool(0.5);
+    let Some((ms, want)) = sync(&mut node, &old, &mut now, &mut seq_s, ts1, &mut rng) else { return };
+    if ms.len() != 1 || ms[0].raw_sync_offset.map(dur_units) != Some(want) {
+        rep.violation("C09|parent-switch|first-parent-not-measured", &format!("Sync of the selected parent X:{hi}: measurements {ms:?}, expected raw_sync_offset {want}"), replay.clone());
+        return;
+    }
+    // the parent moves to X:1
+    for _ in 0..rng.gen_range(2..4) {
+        if !announce(&mut node, &newp, &mut seq_a) {
+            return;
+        }
+    }
+    if node.bmca().is_err() {
+        return;
+    }
+    let pd = node.inst().parent_ds();
+    if node.port_state(0) != PortState::Slave || pd.parent_port_identity.port_number != 1 || pd.parent_port_identity.clock_identity.0 != x {
+        rep.ev("parent_switch_not_reached");
+        return;
+    }
+    rep.ev("parent_port_switch");
+    for _ in 0..3 {
+        let ts_old = rng.gen_bool(0.5);
+        let Some((ms, _)) = sync(&mut node, &old, &mut now, &mut seq_s, ts_old, &mut rng) else { return };
+        if !ms.is_empty() {
+            rep.violation("C09|parent-switch|former-parent-port-measured", &format!("parentDS names X:1 but a Sync exchange of the former parent port X:{hi} produced {ms:?}"), replay.clone());
+            return;
+        }
+        let ts_new = rng.gen_bool(0.5);
+        let Some((ms, want)) = sync(&mut node, &newp, &mut now, &mut seq_s, ts_new, &mut rng) else { return };
+        rep.ev("sync_measurement");
+        if ms.len() != 1 || ms[0].raw_sync_offset.map(dur_units) != Some(want) {
+            rep.violation("C09|parent-switch|selected-parent-not-measured", &format!("parentDS names X:1 but its Sync exchange produced {ms:?}, expected raw_sync_offset {want}"), replay.clone());
+            return;
+        }
+    }
+}
+
 fn alphabet_sync() -> Vec<E> {
     vec![E::S(0), E::F(0), E::S(1), E::F(1), E::S(2), E::F(2)]
 }
@@ -400,7 +499,7 @@ fn full_alphabet() -> Vec<E> {
 
 pub fn run(rep: &mut Report, tier: &str, seed: u64, shard: (u32, u32), replay: Option<&str>) {
     rep.rule = "event scripts over the messages of three Sync exchanges (two-step / one-step / mixed) and Delay_Req exchanges of a slave port: every sequence up to a length bound over the six Sync/Follow_Up messages is enumerated, delay events, foreign-master copies, late/duplicate/other-requester responses are interleaved by seeded sampling; unique random timestamps and corrections per exchange; distinct = distinct (script, parameters); non-trivial = at least one measurement reached the filter".into();
-    rep.require(&["sync_measurement", "delay_measurement", "stray_follow_up_for_one_step_sync"]);
+    rep.require(&["sync_measurement", "delay_measurement", "stray_follow_up_for_one_step_sync", "parent_port_switch"]);
     if let Some(path) = replay {
         let v: serde_json::Value = serde_json::from_str(&std::fs::read_to_string(path).unwrap()).unwrap();
         if let Ok(c) = serde_json::from_value::<Case>(v["case"].clone()) {
@@ -495,5 +594,8 @@ pub fn run(rep: &mut Report, tier: &str, seed: u64, shard: (u32, u32), replay: O
             rep.sample(serde_json::to_value(&case).unwrap());
         }
         count(rep, &case);
+        if i % 200 == 0 {
+            parent_port_switch(rep, rng.gen());
+        }
     }
 }
